@@ -36,7 +36,7 @@ def gen_cases(ctx):
         for toks in itertools.product(c01.TOKENS, repeat=n):
             yield dict(part='text', table='c01', mbs=None, text=''.join(toks))
     for case in c02.gen_cases(ctx):
-        if case['disp'] == 'sync':
+        if case['disp'] == 'sync' and 'doc' in case:
             yield dict(part='text', table='std', mbs=case['mbs'], text=json.dumps(case['doc']))
     for case in c03.gen_failures(ctx):
         if case['disp'] == 'sync':
